@@ -779,7 +779,7 @@ class StrandEndToEnd(EnumContract):
              "subtotals / differences (multi-term, stale, overlapping), hide / prune / explicit order; seeded sample")
     clauses = ("strand-counts", "strand-bases", "strand-proportions", "strand-stderr", "strand-population",
                "strand-subtotals", "strand-visibility", "strand-labels", "strand-ranges", "strand-exception", "ca-stack",
-               "ca-slice", "strand-min-base-mask")
+               "ca-slice", "strand-min-base-mask", "strand-valid-counts")
 
     def cases(self, cfg, seed, thorough):
         rnd = random.Random(7000 + seed)
@@ -844,7 +844,51 @@ class StrandEndToEnd(EnumContract):
         parts = cube.partitions
         if len(parts) != 1 or type(parts[0]).__name__ != "_Strand":
             return ["strand-exception"]
-        return sorted(self._check_strand(parts[0], d, rs, weighted, tr, case.get("mask", 0)))
+        bad = self._check_strand(parts[0], d, rs, weighted, tr, case.get("mask", 0))
+        if d["kind"] != "MR":
+            bad |= self._check_valid_counts(d, rs, tr)
+        return sorted(bad)
+
+    def _check_valid_counts(self, d, rs, tr):
+        """C04: with a numeric (mean) measure and its valid counts in the response, the strand's
+        unweighted counts are the valid counts, signed-merged for subtotals, NaN for differences"""
+        import numpy as np
+        from cr.cube.cube import Cube
+
+        bad = set()
+        V = valid_elems(d)
+        if not V:
+            return bad
+        try:
+            rnd = random.Random(len(rs) * 7 + len(d["cats"]))
+            vals = [None if rnd.random() < 0.3 else rnd.choice([1, 2, 5]) for _ in rs]
+            resp = tabulate([d], rs, False)
+            ncat = len(d["cats"])
+            vc = [sum(1 for r, v in zip(rs, vals) if r["a"][0] == k and v is not None) for k in range(ncat)]
+            mean = [(sum(v for r, v in zip(rs, vals) if r["a"][0] == k and v is not None) / vc[k]) if vc[k] else {"?": -8} for k in range(ncat)]
+            meta = {"references": {"alias": "num", "name": "num"}, "type": {"class": "numeric"}}
+            resp["result"]["measures"]["mean"] = {"data": mean, "n_missing": 0, "metadata": meta}
+            resp["result"]["measures"]["valid_count_unweighted"] = {"data": vc, "n_missing": 0, "metadata": meta}
+            p = Cube(resp, transforms=copy.deepcopy(tr) or None, population=1000).partitions[0]
+            t = tr.get("rows_dimension") or {}
+            vids = [d["cats"][i]["id"] for i in V]
+            ins = []
+            effective = t["insertions"] if "insertions" in t else (d.get("view_insertions") or [])
+            for one in effective:
+                pos = (one.get("kwargs") or {}).get("positive") or one.get("args", [])
+                neg = (one.get("kwargs") or {}).get("negative", [])
+                if set(pos + neg) & set(vids):
+                    ins.append(([vids.index(i) for i in vids if i in pos], [vids.index(i) for i in vids if i in neg]))
+            S = len(ins)
+            order = [int(o) for o in p.row_order()]
+            base = [vc[i] for i in V]
+            subs = [float("nan") if b else float(sum(base[i] for i in a)) for a, b in ins]
+            exp = [base[o] if o >= 0 else subs[o + S] for o in order]
+            if not close(np.asarray(p.unweighted_counts, dtype=float), exp):
+                bad.add("strand-valid-counts")
+        except Exception as e:
+            bad.add("strand-exception:%s" % type(e).__name__)
+        return bad
 
     def _check_strand(self, p, d, rs, weighted, tr, mask=0):
         import numpy as np
